@@ -209,13 +209,48 @@ class Ring:
         if d:
             for c in live:
                 self._record(c, True)
-                v = _single_atom(c)
-                if v is not None:
-                    self.subst.append((v, z3.IntVal(0)))
+                sv = self._solve_linear(c)
+                if sv is not None:
+                    self.subst.append(sv)
         else:
             if len(live) == 1:
                 self._record(live[0], False)
         return d
+
+    def _solve_linear(self, t):
+        """t == 0 with t = c*v + d for a single atom v (c a unit): return (v, value)."""
+        v = _single_atom(t)
+        if v is not None:
+            return (v, z3.IntVal(0))
+        vs = _vars_of(t)
+        if len(vs) != 1:
+            return None
+        v = vs[0]
+        ev = lambda k: z3.simplify(z3.substitute(t, (v, z3.IntVal(k))))
+        d, d1 = ev(0), ev(1)
+        if not (z3.is_int_value(d) and z3.is_int_value(d1)):
+            return None
+        d, c = d.as_long(), d1.as_long() - d.as_long()
+        if self.is_identically_zero(t - (c * v + d)) != "zero":
+            return None
+        if self.modulus is not None:
+            if c % self.modulus == 0:
+                return None
+            val = (-d) * pow(c, -1, self.modulus) % self.modulus
+        else:
+            if c not in (1, -1):
+                return None
+            val = -d * c
+        return (v, z3.IntVal(val))
+
+    def witness(self):
+        """a concrete point consistent with every substitution of this path: atom name -> int.
+        (non-zero verdicts were established at exactly this point.)"""
+        out = dict(self._points)
+        for v, val in self.subst:
+            if z3.is_int_value(val):
+                out[str(v)] = val.as_long()
+        return out
 
     def _product_of_nonzero(self, t):
         return self.status(t) == "nonzero"
@@ -245,9 +280,6 @@ class Ring:
             return self.const(int(o))
         if isinstance(o, int):
             return self.const(o)
-        n = getattr(o, "n", None)
-        if isinstance(n, (int, Res)):     # an FQ holding a value
-            return self.lift(n)
         return None
 
     # identity obligations used by harnesses -------------------------------
